@@ -32,12 +32,12 @@ PROP = {
     "driver": "drv_c13",
     "nontrivial": nontrivial,
     "rule": "sa (middleware called directly): the full matrix handler result {nil, errors.New, sentinel, fmt %w-wrapped, pkg/errors-wrapped, "
-            "custom Is(), *multierror.Error of 1..3 parts} x filter {PoisonQueue, always, never, errors.Is(sentinel), text needle hit/miss/empty} "
+            "custom Is(), context.Canceled / context.DeadlineExceeded themselves and wrapped with %w or pkg/errors, *multierror.Error of 1..3 parts (parts may wrap the sentinel or a context error)} x filter {PoisonQueue, always, never, errors.Is(sentinel), text needle hit/miss/empty} "
             "x poison publisher {accept, error} x outputs {0, 2} x metadata {empty, random incl. non-UTF-8, all four poison keys present, "
             "some present} (x40 random refills in the thorough tier), handler metadata writes in a third of the cases; "
             "rt (inside a running message.Router, scripted subscriber/publishers, middleware router-level and handler-level): per filter "
             "family and level one router with a stream of 40 (quick) / 1200 (thorough) messages, poison publisher failing from the k-th "
-            "message on or at random, the Router's own publisher failing in a quarter of the cases; settlement read from Acked()/Nacked(), "
+            "message on or at random, the Router's own publisher failing in a quarter of the cases; in three of the seven filter families the handler consumes the poison topic itself (subscribe topic == poison topic); settlement read from Acked()/Nacked(), "
             "the returned (events, err) read by an observer middleware outside the poison middleware. "
             "pqf (stateful filters): PoisonQueueWithFilter with a filter scripted as a sequence of answers (budgets 1100.., alternating, "
             "single answers) - 13 answer scripts x {ok, errors.New, sentinel, multierror} x publisher ok/fail stand-alone, and 12 (quick) "
